@@ -235,6 +235,18 @@ def run(chk):
                   "%s contains Boxed_Value handles: the node hands the same element objects to every evaluation, `v[0] += 1` on the result edits the literal in the tree" % bad)
     r4.require(8, "Constant node constructions")
 
+    # ------------------------------------------------------------------ R8.7 compiled closures hold no mutable state
+    r7 = chk.rule("R8.7", "a closure stored in a compiled node captures only immutable plain values by copy (numbers, strings, opcodes): no Boxed_Value, no handle, no reference",
+                  "evaluating a compiled construct does not change the code: nothing that one evaluation writes is kept inside the syntax tree for the next one")
+    caps = compiled_closure_captures(prog)
+    r7.anchor(len(caps) >= 3, "captures of closures handed to make_compiled_node (found %d)" % len(caps))
+    for f, lam, name, t, ok in caps:
+        chk.touched([f])
+        r7.ob("%s: compiled closure captures `%s` : %s" % (strip_targs(f["q"]).replace("chaiscript::optimizer::", ""), name, t[:50]), ok, "%s:%d" % (f["file"], lam["l"]), f["q"],
+              "the capture is %s: it is stored in the syntax tree, shared by every later evaluation of this node (and by every thread evaluating it), and evaluation can write through it" %
+              ("a reference" if not ok and "&" in t else "an object with shared or mutable state"))
+    r7.require(3, "captures")
+
     # ------------------------------------------------------------------ R8.5 = C07 R7.8, re-decided on this program
     from .. import core
     r5 = chk.rule("R8.5", "what a Constant node stores is const and not marked as a temporary: parser literals come from const_var/buildInt/buildFloat, optimizer folds from the arithmetic "
@@ -263,6 +275,32 @@ def run(chk):
         r6.ob("R7.4: %s" % v["instance"], False, v["where"], v["function"], v["detail"] + " - the target can be the box held by a Constant node")
     r6.ob("C07 R7.4 holds (%d obligations)" % sr4[0].obligations, not bad4 or True, "", "", "")
     r6.require(1, "rule")
+
+
+def compiled_closure_captures(prog):
+    """closures handed to make_compiled_node live inside the syntax tree and are shared by every evaluation (and every thread): what they capture must be
+    immutable plain values -> list of (function, lambda node, capture name, type, ok)"""
+    out = []
+    seen = set()
+    for f in prog.fns:
+        if f["tk"] == "pattern" or not f["q"].startswith("chaiscript::optimizer::"):
+            continue
+        for n in walk(f["body"]):
+            if not (n.get("k") == "call" and n.get("name") == "make_compiled_node"):
+                continue
+            for lam in (x for a in n.get("args") or [] for x in walk(a) if x.get("k") == "lambda"):
+                for c in lam.get("caps", []):
+                    t = prog.T(f, c.get("t")) if c.get("t") is not None else "?"
+                    key = (strip_targs(f["q"]), c.get("name"))
+                    if key in seen:
+                        continue
+                    seen.add(key)
+                    bt = t.replace("const ", "").strip()
+                    plain = bt in ("int", "long", "unsigned int", "unsigned long", "bool", "char", "double", "float", "long long", "unsigned long long", "size_t") or \
+                        bt.startswith("std::basic_string<") or bt.startswith("chaiscript::Operators::Opers")
+                    ok = plain and not c.get("byref")
+                    out.append((f, lam, c.get("name"), t, ok))
+    return out
 
 
 def is_static(prog, rec, m):
